@@ -226,22 +226,24 @@ Section Reader.
       rewrite r_str_enc by apply class_name_len.
       rewrite lookup_class_name. rewrite N.eqb_refl. cbn [negb].
       rewrite run_record; [|vm_compute; reflexivity|apply nlen_le_encode].
-      rewrite run_Tell. unfold enc_body at 2. rewrite <- app_assoc.
+      rewrite run_Tell.
+      change (enc_body F c body ++ tail) with ((listener_flag c ++ enc_leaves F body) ++ tail).
+      rewrite <- app_assoc.
       rewrite r_listener_flag_enc.
       rewrite r_leaves_enc by assumption.
       rewrite run_Tell.
       rewrite le_decode_encode by (change (256 ^ N.of_nat 8) with 18446744073709551616; lia).
       rewrite to_signed64_small by lia.
-      set (p0 := (pos + 4 + Z.of_N 8 + Z.of_N (nlen (w_str (class_name c))) + 4 + Z.of_N (N.of_nat 4))%Z).
-      assert (Hd : (p0 + Z.of_N (nlen (listener_flag c)) + Z.of_N (nlen (enc_leaves F body)) - p0 =
-                    Z.of_N (nlen (enc_body F c body)))%Z).
-      { unfold enc_body. rewrite nlen_app. lia. }
-      rewrite Hd. rewrite !Z.ltb_irrefl.
+      match goal with
+      | |- context [(?a + Z.of_N (nlen (listener_flag c)) + Z.of_N (nlen (enc_leaves F body)) - ?a)%Z] =>
+          replace (a + Z.of_N (nlen (listener_flag c)) + Z.of_N (nlen (enc_leaves F body)) - a)%Z
+            with (Z.of_N (nlen (enc_body F c body))) by (unfold enc_body; rewrite nlen_app; lia)
+      end.
+      rewrite !Z.ltb_irrefl.
       rewrite le_decode_encode by (change (256 ^ N.of_nat 4) with 4294967296; lia).
       rewrite add_at_reg; [|assumption|now rewrite reg_ids_num].
       rewrite <- reg_ids_app.
-      f_equal. f_equal. subst p0. rewrite nlen_w_str, nlen_listener_flag, nlen_enc_leaves.
-      change (N.of_nat 4) with 4. lia.
+      f_equal. f_equal. cbn [size_item]. rewrite nlen_w_str, nlen_listener_flag, nlen_enc_leaves. lia.
   Qed.
 
   Lemma r_items_enc F its : forall st (cont : rst -> list pitem -> prog A) pos tail,
